@@ -58,7 +58,7 @@ Theorem C08_complementary_inequalities_any_value : forall (r : cmpop) (d c : xv)
 Proof. exact complement_inequality_any. Qed.
 Print Assumptions C08_complementary_inequalities_any_value.
 (* the full statement (all non-NaN values, == / != included) is false of the current code: inf == inf is reported 0 and so is
-   inf != inf (known finding discretise-eq-inf; machine-checked witness in coq/proofs/C08_finding_eq_inf.v, which is
+   inf != inf (known finding discretise-eq-inf; machine-checked witness was coq/proofs/C08_finding_eq_inf.v, removed after the repair 2ffc422; it was
    deliberately not imported here so that a repair of the defect does not break this file) *)
 
 (* abs_tolerance: None means 0, a negative number is the ValueError, anything else is used as given *)
